@@ -613,7 +613,13 @@ pub fn run_c18(ctx: &Ctx) -> i32 {
                             drop(f);
                         }
                     }
-                    let exited = conn_log().wait(key, Duration::from_secs(6), |o| o.exited);
+                    // the server is done with the faulty connection when its slot is back: only the observer
+                    // holds one (a connection reset before the server looked at it has no peer address any
+                    // more, so its hook events cannot be attributed; the permit count does not depend on that)
+                    let mut exited = conn_log().wait(key, Duration::from_millis(if fault == Fault::Reset { 50 } else { 3000 }), |o| o.exited);
+                    if !exited {
+                        exited = wait_permits(&srv, 63, Duration::from_secs(5)) == 63;
+                    }
                     *local.entry(format!("fault:{:?}", fault)).or_insert(0) += 1;
                     let mut viols: Vec<Viol> = vec![];
                     if !exited {
